@@ -110,3 +110,205 @@ pub async fn hs_fault(seed: u64, kind: &'static str, dir: u64, at: u64) {
         tr(json!({"ev": "api_cancel", "op": o.id, "polls": o.polls}));
     }
 }
+
+/// Directed scenario (C10): the accepting endpoint's transport is stalled so that its dispatcher queues fill up;
+/// requests are then accepted / rejected and the call that blocks on the full queue is cancelled. After the
+/// transport resumes every connect of the requesting endpoint must still resolve.
+pub async fn acc_cancel(seed: u64) {
+    use remoc::chmux::Request;
+    let mut rng = Rng::new(seed ^ 0xACCA);
+    let mut cfg_a = EpCfg::small(&mut rng);
+    let mut cfg_b = EpCfg::small(&mut rng);
+    cfg_b.connect_q = 3;
+    cfg_a.connect_q = 3;
+    cfg_a.max_ports = 8;
+    cfg_b.max_ports = 8;
+    tr(json!({"ev": "reset", "seed": seed, "wl": "acc_cancel", "cfg": [cfg_a.json(), cfg_b.json()]}));
+    install_spawn_policy(seed, 1, 4);
+    let mut conn = Conn::establish(&cfg_a, &cfg_b).await;
+    let client = conn.client[0].clone().unwrap();
+    let mut listener = conn.listener[1].take().unwrap();
+    let alloc_b = listener.port_allocator();
+    let alloc_a = client.port_allocator();
+    let mut next_op = 1u64;
+    type CRes = Result<(remoc::chmux::Sender, remoc::chmux::Receiver), &'static str>;
+    let mut connects: Vec<Op<CRes>> = Vec::new();
+    let n = rng.range(2, 3);
+    for _ in 0..n {
+        let id = next_op;
+        next_op += 1;
+        let c = client.clone();
+        let wait = rng.chance(1, 2);
+        tr(json!({"ev": "api_start", "op": id, "ep": 1, "kind": "client_connect", "wait": wait}));
+        connects.push(Op::new(id, 1, async move {
+            match c.connect_ext(None, wait).await {
+                Ok(conn) => conn.await.map_err(|_| "err"),
+                Err(_) => Err("err"),
+            }
+        }));
+    }
+    let mut kept = Vec::new();
+    let poll_connects = |connects: &mut Vec<Op<CRes>>, kept: &mut Vec<(remoc::chmux::Sender, remoc::chmux::Receiver)>| {
+        let mut i = 0;
+        while i < connects.len() {
+            if connects[i].runnable() {
+                let id = connects[i].id;
+                match connects[i].poll() {
+                    Polled::Ready(Ok((tx, rx))) => {
+                        tr(json!({"ev": "api_done", "op": id, "res": "ok", "local": p32(tx.local_port()), "remote": p32(tx.remote_port())}));
+                        kept.push((tx, rx));
+                        connects.swap_remove(i);
+                    }
+                    Polled::Ready(Err(_)) => {
+                        tr(json!({"ev": "api_done", "op": id, "res": "err", "err": "other"}));
+                        connects.swap_remove(i);
+                    }
+                    _ => i += 1,
+                }
+            } else {
+                i += 1;
+            }
+        }
+    };
+    for _ in 0..6 {
+        poll_connects(&mut connects, &mut kept);
+        conn.flush().await;
+    }
+    // B takes the requests out of its listener
+    let mut held: Vec<Request> = Vec::new();
+    for _ in 0..n {
+        let id = next_op;
+        next_op += 1;
+        tr(json!({"ev": "api_start", "op": id, "ep": 2, "kind": "inspect"}));
+        // inspect() with everything already queued completes without waiting
+        let got = {
+            let fut = listener.inspect();
+            tokio::pin!(fut);
+            let mut got = None;
+            for _ in 0..20 {
+                let r = futures::future::poll_fn(|cx| match fut.as_mut().poll(cx) {
+                    std::task::Poll::Ready(r) => std::task::Poll::Ready(Some(r)),
+                    std::task::Poll::Pending => std::task::Poll::Ready(None),
+                })
+                .await;
+                if r.is_some() {
+                    got = r;
+                    break;
+                }
+                settle().await;
+            }
+            got
+        };
+        match got {
+            Some(Ok(Some(req))) => {
+                tr(json!({"ev": "api_done", "op": id, "res": "req", "rport": p32(req.remote_port()), "wait": req.is_wait()}));
+                held.push(req);
+            }
+            _ => tr(json!({"ev": "api_cancel", "op": id, "polls": 20})),
+        }
+    }
+    // stall B's transport
+    conn.ba.set(|st| st.blocked = true);
+    tr(json!({"ev": "backpressure", "dir": 2, "on": true}));
+    let mut kept_b = Vec::new();
+    let mut pending_ops: Vec<Op<()>> = Vec::new();
+    while let Some(req) = held.pop() {
+        let id = next_op;
+        next_op += 1;
+        let rport = p32(req.remote_port());
+        let accept = rng.chance(1, 2);
+        let (txr, mut rxr) = tokio::sync::mpsc::unbounded_channel();
+        if accept {
+            tr(json!({"ev": "api_start", "op": id, "ep": 2, "kind": "req_accept", "rport": rport}));
+        } else {
+            tr(json!({"ev": "api_start", "op": id, "ep": 2, "kind": "req_reject", "rport": rport, "no_ports": false}));
+        }
+        let mut op = Op::new(id, 2, async move {
+            if accept {
+                let r = req.accept().await;
+                let _ = txr.send(r.ok());
+            } else {
+                req.reject(false).await;
+                let _ = txr.send(None);
+            }
+        });
+        let mut done = false;
+        for _ in 0..rng.range(1, 3) {
+            if let Polled::Ready(()) = op.poll() {
+                done = true;
+                break;
+            }
+            settle().await;
+        }
+        if done {
+            match rxr.try_recv() {
+                Ok(Some((tx, rx))) => {
+                    tr(json!({"ev": "api_done", "op": id, "res": "ok", "local": p32(tx.local_port()), "remote": p32(tx.remote_port())}));
+                    kept_b.push((tx, rx));
+                }
+                _ => tr(json!({"ev": "api_done", "op": id, "res": if accept { "err" } else { "ok" }, "err": "chmux"})),
+            }
+        } else if rng.chance(2, 3) {
+            // blocked (on the full dispatcher queue or waiting for the port): cancel it
+            tr(json!({"ev": "api_cancel", "op": id, "polls": op.polls}));
+            with_label(2, || drop(op));
+        } else {
+            pending_ops.push(op);
+        }
+    }
+    // transport resumes
+    conn.ba.set(|st| st.blocked = false);
+    tr(json!({"ev": "backpressure", "dir": 2, "on": false}));
+    // B keeps accepting; everything must resolve
+    let id = next_op;
+    tr(json!({"ev": "api_start", "op": id, "ep": 2, "kind": "accept"}));
+    let mut acc = Some(Op::new(id, 2, async move {
+        let r = listener.accept().await;
+        (r.ok().flatten(), listener)
+    }));
+    let mut listener_back = None;
+    for _ in 0..300 {
+        poll_connects(&mut connects, &mut kept);
+        pending_ops.retain_mut(|o| !(o.runnable() && matches!(o.poll(), Polled::Ready(()))));
+        if let Some(a) = acc.as_mut() {
+            if a.runnable() {
+                if let Polled::Ready((r, l)) = a.poll() {
+                    match r {
+                        Some((tx, rx)) => {
+                            tr(json!({"ev": "api_done", "op": a.id, "res": "ok", "local": p32(tx.local_port()), "remote": p32(tx.remote_port())}));
+                            kept_b.push((tx, rx));
+                        }
+                        None => tr(json!({"ev": "api_done", "op": a.id, "res": "none"})),
+                    }
+                    listener_back = Some(l);
+                    acc = None;
+                }
+            }
+        }
+        conn.flush().await;
+    }
+    let mut pending: Vec<u64> = connects.iter().map(|o| o.id).collect();
+    pending.extend(acc.iter().map(|o| o.id));
+    let free = vec![alloc_a.try_allocate().is_some(), alloc_b.try_allocate().is_some()];
+    tr(json!({"ev": "quiescent", "pending": pending, "settled": false, "free_ports": free, "held": [0, 0]}));
+    for o in connects {
+        tr(json!({"ev": "api_cancel", "op": o.id, "polls": o.polls}));
+    }
+    if let Some(a) = acc {
+        tr(json!({"ev": "api_cancel", "op": a.id, "polls": a.polls}));
+        drop(a);
+    }
+    drop(pending_ops);
+    for (ep, list) in [(1u64, kept), (2u64, kept_b)] {
+        for (tx, rx) in list {
+            tr(json!({"ev": "drop", "ep": ep, "what": "sender", "port": p32(tx.local_port())}));
+            tr(json!({"ev": "drop", "ep": ep, "what": "receiver", "port": p32(rx.local_port())}));
+            drop(tx);
+            drop(rx);
+        }
+    }
+    drop(listener_back);
+    drop(client);
+    tr(json!({"ev": "all_dropped"}));
+    conn.teardown().await;
+}
